@@ -51,10 +51,10 @@ func firstLines(s string, n int) string {
 }
 
 func modesOf(x *xRun) int {
-	if x.HasSum {
-		return 2
+	if x.Modes == 0 {
+		return 1
 	}
-	return 1
+	return x.Modes
 }
 
 // evalC01: emitted encoders produce exactly the reference bytes.
@@ -126,14 +126,14 @@ func nontrivialEncoding(k xCase, x *xRun) bool {
 }
 
 type xProp struct {
-	id    string
-	rule  string
-	eval  func(xCase) []pbt.Violation
-	cfg   func(rt *rapid.T, avoid map[string]bool) (dsl.GenCfg, int, dsl.ValCfg, bool)
-	tests bool
-	viaCLI bool
+	id         string
+	rule       string
+	eval       func(xCase) []pbt.Violation
+	cfg        func(rt *rapid.T, avoid map[string]bool) (dsl.GenCfg, int, dsl.ValCfg, bool)
+	tests      bool
+	viaCLI     bool
 	nontrivial func(k xCase) bool
-	assume []string
+	assume     []string
 }
 
 var xAssume = []string{
@@ -152,7 +152,7 @@ func runXPropWith(t *testing.T, xp xProp, post func(rt *rapid.T, k *xCase)) {
 		c.Direct(t, func() { k := loadCase[xCase](t, p); c.Eval(); c.Report(pbt.DirectTB(t), k, xp.eval(k)) })
 		return
 	}
-	avoidAll := pbt.AvoidTags(xp.id, "C11", "C12", "C07", "C01")
+	avoidAll := pbt.AvoidTags(xp.id)
 	c.SetRecheck(func(k any) []pbt.Violation { return xp.eval(k.(xCase)) })
 	c.ReplayKnown(t, func(raw json.RawMessage) []pbt.Violation {
 		var k xCase
@@ -211,6 +211,10 @@ func defaultXCfg(rt *rapid.T, avoid map[string]bool) (dsl.GenCfg, int, dsl.ValCf
 	// several fields typed by one fixed-string MetaData entry, one of them padded: attributes
 	// must stay with the field they are written on
 	cfg.MetaShare = rapid.IntRange(0, 4).Draw(rt, "metashare") == 0
+	// attribute fields interact (a checksum behind a length-of field covers the patched length)
+	if rapid.IntRange(0, 3).Draw(rt, "len_and_sum") == 0 {
+		cfg.WantLen, cfg.WantSum, cfg.WantMatch = true, true, rapid.Bool().Draw(rt, "las_match")
+	}
 	return cfg, 4, dsl.ValCfg{MaxList: 3, LongList: pbt.Thorough()}, false
 }
 
